@@ -51,6 +51,8 @@ func runSelftest(c *Ctx, verifDir string) {
 	add(filepath.Join(verifDir, "neutral_pool3", "*", "*.patch"), "pool")
 	// behaviour-preserving edits of constants, patterns, predicates and supporting code (DESIGN §8.14)
 	add(filepath.Join(verifDir, "neutral_pool4", "*", "*.patch"), "pool")
+	// round-3 seeds with their bug repaired, and renamed reference functions (DESIGN §8.16)
+	add(filepath.Join(verifDir, "neutral_pool5", "*", "*.patch"), "pool")
 	if len(variants) == 0 {
 		return
 	}
@@ -84,7 +86,15 @@ func runSelftest(c *Ctx, verifDir string) {
 			}
 			res := variantResult{Name: name, Kind: kind}
 			if kind == "pool" {
-				if lim, err := os.ReadFile(filepath.Join(filepath.Dir(path), "limit.json")); err == nil {
+				limFile := filepath.Join(filepath.Dir(path), "limit.json")
+				if v := strings.TrimSuffix(filepath.Base(path), "-repaired.patch"); v != filepath.Base(path) && len(v) == 1 {
+					if _, err := os.Stat(filepath.Join(filepath.Dir(path), "limit-"+v+".json")); err == nil {
+						limFile = filepath.Join(filepath.Dir(path), "limit-"+v+".json")
+					} else if strings.Contains(path, "neutral_pool5") {
+						limFile = "/nonexistent"
+					}
+				}
+				if lim, err := os.ReadFile(limFile); err == nil {
 					var l struct {
 						AlarmsUnder []string `json:"alarms_under"`
 					}
